@@ -15,6 +15,7 @@ def run(ctx):
     R.pan1_awaited_jobs_report_failures(ctx)
     D.ord11_files_before_catalogue_entry(ctx)
     D.lit3_wal_file_names(ctx)
+    D.ord15_store_not_conditional_on_presence(ctx)
     return ctx.finish(
         'Static analysis of compiler MIR: a crash between any two file effects leaves either the '
         'old catalogue with all its files and log segments or the new one, because (a) blobs are '
